@@ -356,7 +356,7 @@ ALU1 = ["ISZERO", "NOT"]
 K4_OPS = ["ADDMOD", "MULMOD", "SIGNEXTEND", "BYTE"]
 
 
-def c07_programs(rng, bw, n, known_class=False, max_branches=5):
+def c07_programs(rng, bw, n, known_class=False, max_branches=5, trunc_tail=False):
     """stack-safe, loop-free programs over C07's fragment: PUSH0..32, DUP/SWAP, POP, ALU, PC, CODESIZE, aligned
     MSTORE/MLOAD, SLOAD/SSTORE on literal keys, forward JUMP/JUMPI to constant targets (<= 5 JUMPIs)."""
     out = []
@@ -451,7 +451,11 @@ def c07_programs(rng, bw, n, known_class=False, max_branches=5):
                         a.label(name)
         block(rng.choice([6, 12, 25, 40]))
         r = rng.random()
-        if r < 0.5:
+        if trunc_tail:
+            # the code ends in a PUSHn with fewer than n immediate bytes (known class K5 of C07)
+            nn = rng.randrange(1, 33)
+            a.raw([0x5f + nn] + [rng.choice([0, 1, 0x5b, 0x60, 0xff, rng.randrange(256)]) for _ in range(rng.randrange(0, nn))])
+        elif r < 0.5:
             a.op("STOP")
         elif r < 0.65 and depth >= 2:
             a.op(rng.choice(["RETURN", "REVERT"]))
